@@ -114,7 +114,19 @@ def pandas_sequence(chk, r, active_name, length, tmp):
             elif choice == "pickle":
                 new = pickle.loads(pickle.dumps(cur)); op = ["rows"]
             elif choice == "concat":
-                new = pd.concat([cur, cur]); op = ["rows"]
+                how = r.choice(("twice", "with-empty", "all-empty", "chunked-cx-no-hit"))
+                if how == "twice":
+                    new = pd.concat([cur, cur])
+                elif how == "with-empty":
+                    new = pd.concat([cur.iloc[:0], cur, cur.iloc[:0]])
+                elif how == "all-empty":
+                    new = pd.concat([cur.iloc[:0], cur.iloc[:0]])                  # frames that agree on the active column, none has a row
+                else:
+                    if flav != "geo" or act == "N" or len(cur) < 2:
+                        continue
+                    h = len(cur) // 2
+                    new = pd.concat([cur.iloc[:h].cx[9000:9001, 9000:9001], cur.iloc[h:].cx[9000:9001, 9000:9001]])   # per-chunk answers, no hit
+                op = ["rows"]
             elif choice == "dask":
                 if len(cur) == 0:
                     continue
